@@ -134,6 +134,7 @@ theorem addTarget_err {ms : Option Nat} {c : ChanState} {qs : List Nat} {e : Err
       split at h
       · have := lift_err h
         generalize (CRes.lift c (waitForFall ms c)).c = c1 at this
+        unfold addTargetTail at this
         split at this
         · rename_i e1 hl; injection this with this; subst this; exact last_err hl
         · simp only at this
